@@ -121,6 +121,10 @@ func (h *Helium) dispatch(ctx context.Context, status types.ServiceStatus) {
 			return
 		case <-val.ctx.Done():
 			return
+		default:
+			// the subscriber is not reading right now: it must not hold up the other
+			// subscribers nor Unsubscribe; it gets the latest status with the next push
+			return
 		}
 	}
 	h.subs.ForEach(func(k uint32, v entry) bool {
